@@ -499,6 +499,8 @@ func checkC12(c *Ctx, r *Report, tier string) {
 		})
 	}
 
+	distancesNonNegative(c, r, "C12.R2")
+	notificatorChannelUnderLock(c, r, "C12.R2")
 	// ---- R3 ---------------------------------------------------------------------------
 	applyReach := c.reachableFrom(ro.applyRoots, true, true)
 	type fieldKey struct{ typ, getter string }
